@@ -588,3 +588,89 @@ def names_feeding(stmts, expr):
                 for a in n.args:
                     out |= {x.id for x in ast.walk(a) if isinstance(x, ast.Name)}
     return out if found else {expr.id}
+
+
+# --------------------------------------------------------------------------------------
+# guard-after-use (Engler-style contradiction): `v = S[i]...` is evaluated unconditionally, and a later test
+# `len(S) <cmp> k or f(v)` / `not S or f(v)` short-circuits on S before it looks at v.  The short-circuit says "v is
+# only meaningful when S is long enough", but the subscript that produced v already ran.
+def _len_test_subject(t):
+    """`len(S) <op> k`, `not S`, `S` (emptiness) -> name of S"""
+    if isinstance(t, ast.UnaryOp) and isinstance(t.op, ast.Not):
+        t = t.operand
+        if isinstance(t, ast.Name):
+            return t.id
+    if isinstance(t, ast.Compare) and len(t.ops) == 1:
+        for side in (t.left, t.comparators[0]):
+            if isinstance(side, ast.Call) and isinstance(side.func, ast.Name) and side.func.id == "len" and side.args and isinstance(side.args[0], ast.Name):
+                return side.args[0].id
+    return None
+
+
+def guard_after_use(fnode):
+    """-> (number of short-circuit tests inspected, [(If/While test node, S, v, defining Assign)])"""
+    from sa.cfg import CFG, ReachingDefs
+
+    tests = [n for n in walk_no_nested(fnode) if isinstance(n, ast.BoolOp) and len(n.values) >= 2 and _len_test_subject(n.values[0]) is not None]
+    if not tests:
+        return 0, []
+    cfg = CFG(fnode)
+    rd = ReachingDefs(cfg)
+    byid = {x.id: x for x in cfg.nodes}
+    out = []
+    for b in tests:
+        S = _len_test_subject(b.values[0])
+        node = cfg.node_for(b)
+        if node is None:
+            continue
+        later = {x.id for v in b.values[1:] for x in ast.walk(v) if isinstance(x, ast.Name)}
+        for v in sorted(later):
+            defs = rd.defs_reaching(node, v)
+            if len(defs) != 1:
+                continue
+            d = byid[defs[0]]
+            st = d.ast
+            if not isinstance(st, ast.Assign) or d.kind != "stmt":
+                continue
+            subs = [x for x in ast.walk(st.value) if isinstance(x, ast.Subscript) and isinstance(x.value, (ast.Name, ast.Subscript)) and chain_root_name(x) == S]
+            if not subs:
+                continue
+            # the subscript can actually fail: the function itself creates `S` (depth 1) / an element of `S`
+            # (depth 2) as an empty list, so "long enough" is not guaranteed by construction
+            depth = 0
+            x = subs[0]
+            while isinstance(x, ast.Subscript):
+                depth += 1
+                x = x.value
+            if not _may_be_empty(fnode, S, min(depth, 2)):
+                continue
+            # the subscript ran unconditionally w.r.t. S: no dominating fact of the definition mentions S
+            if any(t is not None and S in {y.id for y in ast.walk(t) if isinstance(y, ast.Name)} for t, pol in cfg.guards(d)):
+                continue
+            # same S at both places
+            if rd.defs_reaching(d, S) != rd.defs_reaching(node, S):
+                continue
+            out.append((b, S, v, st))
+    return len(tests), out
+
+
+def chain_root_name(x):
+    while isinstance(x, (ast.Subscript, ast.Attribute)):
+        x = x.value
+    return x.id if isinstance(x, ast.Name) else None
+
+
+def _is_empty_list(e):
+    return (isinstance(e, (ast.List, ast.Tuple)) and not e.elts) or (isinstance(e, ast.Call) and isinstance(e.func, ast.Name) and e.func.id == "list" and not e.args)
+
+
+def _may_be_empty(fnode, S, depth):
+    for n in walk_no_nested(fnode):
+        if isinstance(n, ast.Assign) and any(isinstance(t, ast.Name) and t.id == S for t in n.targets):
+            if depth == 1 and _is_empty_list(n.value):
+                return True
+            if depth == 2 and isinstance(n.value, ast.List) and any(_is_empty_list(e) for e in n.value.elts):
+                return True
+        if depth == 2 and isinstance(n, ast.Call) and isinstance(n.func, ast.Attribute) and n.func.attr in ("append", "insert") and isinstance(n.func.value, ast.Name) and n.func.value.id == S and n.args and _is_empty_list(n.args[-1]):
+            return True
+    return False
